@@ -104,6 +104,27 @@ class OwnAnalysis:
         for n in fn.nodes:
             if n.k == "DeclRefExpr" and n.j.get("ct") == "enum econf_err" and n.j.get("dk") == "local":
                 self.err_vars.add(n.j["name"])
+        # flag variables: int/bool locals that only ever receive integer constants (init_keyfile = 1; found = true)
+        from . import query as _q
+        consts, spoiled = {}, set()
+        for n in fn.walk():
+            if n.k == "DeclStmt":
+                for d in n.j.get("decls", []):
+                    if d.get("ct") in ("int", "_Bool", "bool", "unsigned int") and d.get("init", -1) >= 0:
+                        (consts.setdefault(d["name"], True) if fn.nodes[d["init"]].const_value() is not None else spoiled.add(d["name"]))
+                    elif d.get("ct") in ("int", "_Bool", "bool", "unsigned int"):
+                        consts.setdefault(d["name"], True)
+        for lhs, rhs, st2, kind in _q.stores(fn):
+            l = lhs.strip()
+            if l.k == "DeclRefExpr" and l.j.get("dk") == "local":
+                if kind != "=" or rhs is None or rhs.const_value() is None:
+                    spoiled.add(l.j["name"])
+        for n in fn.walk():
+            if n.k == "UnaryOperator" and n.j.get("op") == "&" and n.children and n.children[0].strip().k == "DeclRefExpr":
+                spoiled.add(n.children[0].strip().j["name"])
+        for name in consts:
+            if name not in spoiled:
+                self.err_vars.add(name)
         self.findings = {}
         self.exit_states = []      # (return node, state)
         self.entry_out = entry_out
@@ -403,6 +424,8 @@ class OwnAnalysis:
                         s2.heap[old] = "M"
             if errvar is not None and summ.ret_err:
                 s2.facts[errvar] = "Z" if cls == "ok" else "NZ"
+            if errvar is None and summ.ret_err and up is not None and up.k == "ReturnStmt":
+                s2.facts["$ret"] = "Z" if cls == "ok" else "NZ"       # return f(...): the verdict handed on
             s2.trail = s2.trail + ("%s: %s() -> %s" % (c.where, name, cls),)
             outs.append(s2)
         return outs
@@ -466,6 +489,8 @@ class OwnAnalysis:
                         st.facts[d["name"]] = "Z" if init.j.get("val") == 0 else (init.j["name"] if init.j["name"] in ("ECONF_NOFILE", "ECONF_NOMEM") else "NZ")
                     elif init.k == "DeclRefExpr" and render(init) in st.facts:
                         st.facts[d["name"]] = st.facts[render(init)]
+                    elif init.const_value() is not None:
+                        st.facts[d["name"]] = "Z" if init.const_value() == 0 else "NZ"
                     elif not (init.k == "CallExpr" and init.j.get("callee") in self.summaries):
                         st.facts.pop(d["name"], None)
             return [st]
